@@ -89,6 +89,22 @@ def decode_command(eng, wire, front):
             for x in tsc[2:]:
                 v = v * 256 + x
             out['sig_time'] = v
+            # SignatureInfo component: 08 LL 16 03 1b 01 00 ; SignatureValue component: 08 LL 17 20 <sha256 of every
+            # preceding name component, each as its full TLV>
+            try:
+                si = ref.rd_seq(comps[7], 0, len(comps[7]))[0]
+                si_in = ref.rd_seq(comps[7], si.vs, si.ve)[0]
+                st = ref.decode_model(comps[7], si_in.vs, si_in.ve, ref.SIGINFO, True)
+                sv = ref.rd_seq(comps[8], 0, len(comps[8]))[0]
+                sv_in = ref.rd_seq(comps[8], sv.vs, sv.ve)[0]
+                signed = []
+                for c in comps[:8]:
+                    signed += list(c)
+                exp = crypto.ideal('sha256', signed)
+                out['legacy_sig_ok'] = And(si_in.typ == 0x16, st.get('signature_type') == 0, sv_in.typ == 0x17,
+                                           beq(comps[8][sv_in.vs:sv_in.ve], exp))
+            except (ref.RefReject, IndexError):
+                out['legacy_sig_ok'] = False
     return out
 
 
@@ -145,6 +161,9 @@ def _len_bytes(n):
 def _prefix(eng, spec, i):
     """a prefix as component list: URI string, or 'SYM' = one generic component with one symbolic value byte"""
     import ndn.encoding as enc
+    if spec == 'LONG':
+        # a long prefix: the command name crosses 253 bytes (3-byte length of the Name element)
+        return [env.concrete_component(8, bytes((j * 5 + 2) & 0x7F for j in range(230)))]
     if spec in ('SYM', 'SYM4'):
         b = eng.bytes('pfx%d' % i, 1)
         if spec == 'SYM4':
@@ -276,6 +295,7 @@ def scenario(eng, case, front):
             eng.check(cmd['digest_ok'], 'parameters-digest-valid')
         else:
             eng.check(cmd['n_comps'] == 9, 'legacy-command-format', {'components': cmd['n_comps']})
+            eng.check(cmd.get('legacy_sig_ok', False), 'legacy-command-format', sig='digest-signature-over-the-name-components')
     # for the known-finding classification: was the freshness guard of each command evaluated in the same loop
     # instant as its signing (then only a clock tick BETWEEN the two reads can defeat it - the recorded finding), or
     # were they separated by an await (then the guard does not protect the command at all - a different defect)?
@@ -532,7 +552,7 @@ def cases(tier, seed):
         cs.append(('reg_v2', {'K': 3, 'ops': ['register'] * 3, 'kinds': [['ok', 'nack'], ['ok', 'silence'], ['ok']]},
                    {'weight': 200, 'split_depth': 5}))
     # all prefixes: the root prefix, a zero-length component, one symbolic component (single call, forwarder says ok / 400)
-    for pf in ('/', 'SYM', '/a/b/c'):
+    for pf in ('/', 'SYM', '/a/b/c', 'LONG'):
         for op in ('register', 'unregister'):
             cs.append(('reg_v2', {'K': 1, 'ops': [op], 'kinds': [['ok', 'status']],
                                   'prefixes': ['SYM4' if pf == 'SYM' and op == 'register' else pf]}, {'weight': 10}))
